@@ -12,6 +12,9 @@ import TFV.Model.Adapt
 import TFV.Lemmas.Metrics
 import TFV.Generated.Src.SHADE_update_u_CR
 import TFV.Generated.Src.SHAGA_update_u
+import TFV.Generated.Src.Lehmer_mean_weighted
+import TFV.Generated.Src.Lehmer_mean_plain
+import Mathlib.Tactic.Ring
 
 namespace TFV.Properties.Src.MemoryUpdate
 open TFV.NpQ TFV.Adapt TFV.Generated.Src
@@ -49,6 +52,81 @@ theorem C15_src_shaga_update_u (u : Rat) (S df : List Rat) :
     · simp [hlen, hne, hpos, isinf, vsum_eq_sum, weights]
     · have hv : ¬ vsum df > 0 := by rw [vsum_eq_sum]; exact hpos
       simp [hlen, hne, hpos, hv]
+
+theorem zipWith_mul_map_sq (w x : List Rat) :
+    List.zipWith (fun a b => a * b) w (x.map fun a => a ^ 2) = List.zipWith (· * ·) w (x.map fun a => a * a) := by
+  induction w generalizing x with
+  | nil => simp
+  | cons a as ih =>
+    cases x with
+    | nil => simp
+    | cons b bs => simp only [List.map_cons, List.zipWith_cons_cons, ih]; congr 1; ring
+
+theorem zipWith_mul_map_one (w x : List Rat) :
+    List.zipWith (fun a b => a * b) w (x.map fun a => a ^ 1) = List.zipWith (· * ·) w x := by
+  induction w generalizing x with
+  | nil => simp
+  | cons a as ih =>
+    cases x with
+    | nil => simp
+    | cons b bs => simp only [List.map_cons, List.zipWith_cons_cons, ih]; congr 1; ring
+
+theorem zipWith_ones (x : List Rat) (g : Rat → Rat) :
+    List.zipWith (· * ·) (x.map fun _ => (1 : Rat)) (x.map g) = x.map g := by
+  induction x with
+  | nil => rfl
+  | cons a as ih => simp only [List.map_cons, List.zipWith_cons_cons, ih, one_mul]
+
+/-- `lehmer_mean(x, weight=w)` (power 2) = `Adapt.lehmer x w` for equally long vectors -/
+theorem C15_src_lehmer_mean_weighted (x w : List Rat) (hl : w.length = x.length) :
+    Lehmer_mean_weighted x w = some (lehmer x w) := by
+  unfold Lehmer_mean_weighted lehmer
+  simp only [vzip, List.length_map, hl, if_true, bind, Option.bind, vsum_eq_sum, zipWith_mul_map_sq, zipWith_mul_map_one, dot, pure]
+  by_cases h : (List.zipWith (· * ·) w x).sum = 0
+  · simp [h]
+  · simp [h]
+
+/-- `lehmer_mean(x)` without weights = `Adapt.lehmer1 x` -/
+theorem C15_src_lehmer_mean_plain (x : List Rat) : Lehmer_mean_plain x = some (lehmer1 x) := by
+  have h1 : ((x.map fun a => a ^ 1).map fun a => (1 : Rat) * a) = x := by
+    rw [List.map_map]
+    conv => rhs; rw [← List.map_id x]
+    apply List.map_congr_left
+    intro a _
+    simp
+  have h2 : ((x.map fun a => a ^ 2).map fun a => (1 : Rat) * a) = x.map fun a => a * a := by
+    rw [List.map_map]
+    apply List.map_congr_left
+    intro a _
+    simp only [Function.comp]
+    ring
+  have hd : dot (x.map fun _ => (1 : Rat)) x = x.sum := by
+    have := zipWith_ones x id
+    simp only [List.map_id] at this
+    simp only [dot]
+    rw [this]
+  have hu : dot (x.map fun _ => (1 : Rat)) (x.map fun a => a * a) = (x.map fun a => a * a).sum := by
+    simp only [dot]
+    rw [zipWith_ones]
+  unfold Lehmer_mean_plain lehmer1 lehmer
+  simp only [h1, h2, vsum_eq_sum, hd, hu, pure]
+  by_cases h : x.sum = 0
+  · simp [h]
+  · simp [h]
+
+/-- SHAGA's rule with the regenerated `lehmer_mean` plugged in for the function parameter (equally many successes and improvements) -/
+theorem C15_src_shaga_update_u_composed (u : Rat) (S df : List Rat) (hl : df.length = S.length) :
+    SHAGA_update_u (fun x w => (Lehmer_mean_weighted x w).getD 0) u S df = some (updateU u S df) := by
+  have hw : ∀ w : List Rat, w.length = S.length → (Lehmer_mean_weighted S w).getD 0 = lehmer S w := by
+    intro w h; rw [C15_src_lehmer_mean_weighted S w h]; rfl
+  have h1 := hw (df.map fun a => a / vsum df) (by simp [hl])
+  have h2 := hw ((visinf df).map fun a => a / vsum (visinf df)) (by simp [visinf, hl])
+  have := C15_src_shaga_update_u u S df
+  unfold SHAGA_update_u at this ⊢
+  simp only [h1, h2] at this ⊢
+  exact this
+
+example : Lehmer_mean_weighted [1/2, 1/4] [1, 3] = some (7/20) := by decide +kernel
 
 example : SHADE_update_u_CR (1/2) [1/4, 3/4] [1, 3] = some (5/8) := by decide +kernel
 example : SHADE_update_u_CR (1/2) [] [] = some (1/2) := by decide +kernel
